@@ -25,6 +25,7 @@ mod inject;
 mod tenantstore;
 mod tenantapi;
 mod rbac;
+mod conninject;
 mod reload;
 
 fn main() {
@@ -68,6 +69,7 @@ fn main() {
         "tenantstore-replay" => tenantstore::replay(rest),
         "tenantapi-replay" => tenantapi::replay(rest),
         "rbac-replay" => rbac::replay(rest),
+        "conninject-replay" => conninject::replay(rest),
         "reload-replay" => reload::replay(rest),
         "for-expand" => misc::for_expand(rest),
         "event-file" => misc::event_file(rest),
